@@ -114,6 +114,17 @@ inline std::vector<PrimaryCase> primary_lattice(bool thorough)
                 for (size_t d = 0; d < dirs.size(); ++d)
                     v.push_back({k, energies[e], positions[p], dirs[d],
                                  fmt("k%d.e%zu.p%zu.d%zu", k, e, p, d)});
+    // dyadic start points on axis-parallel rays: with a dyadic fixed_step_limiter (config
+    // "fs" variants) and the dyadic box faces of g1 the physics step limit TIES EXACTLY with
+    // the distance to the next surface, the case "limit == boundary distance"
+    std::vector<D3> dyadic = {{0.25, 0.125, 0.0}, {-1.0, 0.5, 0.25}};
+    std::vector<D3> axis = {{1, 0, 0}, {0, -1, 0}, {0, 0, 1}};
+    for (int k = 0; k < 3; ++k)
+        for (size_t e = 1; e < (thorough ? 3 : 2); ++e)
+            for (size_t p = 0; p < dyadic.size(); ++p)
+                for (size_t d = 0; d < axis.size(); ++d)
+                    v.push_back({k, energies[e], dyadic[p], axis[d],
+                                 fmt("k%d.e%zu.q%zu.a%zu", k, e, p, d)});
     return v;
 }
 
@@ -179,6 +190,24 @@ inline std::vector<ConfigCase> config_lattice(bool thorough)
                         c.init_capacity = 4096;
                         v.push_back({c, fmt("g%d.%s.s%u.o%d.x%d", g, along_name(a), s, int(o), xs)});
                     }
+    // fixed_step_limiter variants (dyadic limit: exact ties with the dyadic faces of g1)
+    for (auto a : thorough ? std::vector<AlongStep>{AlongStep::linear, AlongStep::linear_fluct,
+                                                    AlongStep::field}
+                           : std::vector<AlongStep>{AlongStep::linear})
+        for (double fs : thorough ? std::vector<double>{0.25, 0.125} : std::vector<double>{0.25})
+            for (unsigned s : {1u, 3u})
+            {
+                LoopConfig c;
+                c.geometry = 1;
+                c.geo_variant = 1;
+                c.along = a;
+                c.slots = s;
+                c.fixed_step = fs;
+                c.xs_gamma = 0.7;
+                c.xs_electron = 1.0;
+                c.dedx = 2.0;
+                v.push_back({c, fmt("g1.%s.s%u.o0.x0.fs%g", along_name(a), s, fs)});
+            }
     return v;
 }
 
@@ -370,6 +399,13 @@ inline Verdict check_steps(LoopProblem const& P, std::vector<StepRec> const& rec
         for (auto const& s : probes->snaps)
             if (s.order == int(StepActionOrder::user_pre) && s.status == int(TrackStatus::alive))
                 pre_limit[{s.event, s.track, s.num_steps}] = &s;
+    // geometry state after the along-step, per (event, track, step count)
+    std::map<std::tuple<unsigned, unsigned, unsigned>, ProbeSnap const*> after_along;
+    if (probes)
+        for (auto const& s : probes->snaps)
+            if (s.order == int(StepActionOrder::sort_pre_post)
+                && s.status == int(TrackStatus::alive))
+                after_along[{s.event, s.track, s.num_steps}] = &s;
     double const scale = 10;  // geometry scale (cm)
     for (auto const& kv : tracks)
     {
@@ -448,6 +484,24 @@ inline Verdict check_steps(LoopProblem const& P, std::vector<StepRec> const& rec
                     R.count("limit_checked");
                 }
             }
+            if (probes)
+            {
+                // the propagation moved the track onto a surface (geometry state "on boundary"):
+                // the boundary action, the only place where the volume changes, must follow
+                auto it = after_along.find({s.event, s.track, s.step_count});
+                if (it != after_along.end())
+                {
+                    R.count("after_along_checked");
+                    if (it->second->on_boundary && it->second->post_action != boundary)
+                        return Verdict{
+                            "steps:on-boundary-without-boundary-action",
+                            where()
+                                + fmt(": after the along-step the geometry state is on a boundary "
+                                      "at [%.17g,%.17g,%.17g] but the post-step action is %s",
+                                      it->second->pos[0], it->second->pos[1], it->second->pos[2],
+                                      P.action_labels.at(it->second->post_action).c_str())};
+                }
+            }
             if (s.pre.volume != s.post.volume && s.action != boundary)
                 return Verdict{"steps:volume-change-without-boundary",
                                where() + fmt(": volume %d -> %d", s.pre.volume, s.post.volume)};
@@ -464,13 +518,61 @@ inline Verdict check_steps(LoopProblem const& P, std::vector<StepRec> const& rec
                 int want = loc.outside ? -1 : loc.global_volume;
                 R.count("oracle_located");
                 if (want != pt.volume)
+                {
+                    // classify: did an earlier INTERNAL move of this track (not a boundary
+                    // step; geometry state not on a boundary afterwards) end exactly on a
+                    // surface by rounding, after which the navigator no longer sees it?
+                    std::string sig = "steps:volume-does-not-contain-position";
+                    for (size_t j = k + 1; j-- > 0;)
+                    {
+                        StepRec const& b = *st[j];
+                        if (j < k && b.post.volume != pt.volume)
+                            break;
+                        if (j == k && !w)
+                            continue;  // the pre-point is the previous step's post-point
+                        if (b.action == boundary)
+                            break;
+                        OLocation lb = P.oracle->locate(b.post.pos, 1e-13);
+                        if (lb.status != OLocation::ambiguous)
+                            continue;
+                        auto it = after_along.find({b.event, b.track, b.step_count});
+                        if (it == after_along.end() || it->second->on_boundary)
+                            break;
+                        // Only the genuine ROUNDING case is the recorded finding: for every
+                        // axis-aligned face the end point lies on, the navigator's own
+                        // intercept quotient (face - pre)/dir must exceed the step length.
+                        // With quotient <= length (an exact tie, e.g. an axis-parallel ray)
+                        // find_next_step(max_step) has to report the boundary: not known.
+                        int faces = 0, beyond = 0;
+                        for (int a = 0; a < 3; ++a)
+                        {
+                            double const da = b.pre.dir[a];
+                            if (da == 0)
+                                continue;
+                            auto lo = b.post.pos, hi = b.post.pos;
+                            lo[a] -= 1e-9;
+                            hi[a] += 1e-9;
+                            OLocation l0 = P.oracle->locate(lo, 1e-12), l1 = P.oracle->locate(hi, 1e-12);
+                            if (l0.status != OLocation::ok || l1.status != OLocation::ok
+                                || (l0.global_volume == l1.global_volume && l0.outside == l1.outside))
+                                continue;
+                            ++faces;
+                            double q = (b.post.pos[a] - b.pre.pos[a]) / da;
+                            if (q > b.step_length)
+                                ++beyond;
+                        }
+                        if (faces > 0 && beyond == faces)
+                            sig += "[after an internal move rounded onto a surface]";
+                        break;
+                    }
                     return Verdict{
-                        "steps:volume-does-not-contain-position",
+                        sig,
                         where()
                             + fmt(": %s-step point [%.17g,%.17g,%.17g] reported in volume %d, oracle "
                                   "locates %d (%s)",
                                   w ? "post" : "pre", pt.pos[0], pt.pos[1], pt.pos[2], pt.volume,
                                   want, P.oracle->volume_name(loc.global_volume).c_str())};
+                }
             }
         }
     }
